@@ -55,8 +55,8 @@ type RunResult struct {
 }
 
 // groupTargets maps a model group to real API targets.
-var groupRID = map[string]string{"g1": "test.r.a", "g2": "test.q.b", "par": "test.par.c", "g3": "test.sub.x.d", "g4": "test.adm.x"}
-var groupID = map[string]string{"g1": "test.r.a", "g2": "grp.b", "par": "", "g3": "deep.d", "g4": "ten.adm"}
+var groupRID = map[string]string{"g1": "test.r.a", "g2": "test.q.b", "par": "test.par.c", "g3": "test.sub.x.d", "g4": "test.adm.x", "g5": "test.sub.late.e"}
+var groupID = map[string]string{"g1": "test.r.a", "g2": "grp.b", "par": "", "g3": "deep.d", "g4": "ten.adm", "g5": "test.sub.late.e"}
 
 // Scenario is one service instance with monitors.
 type Scenario struct {
@@ -170,6 +170,9 @@ func NewScenario(tr *Tracer, prog Program) *Scenario {
 	sub := res.NewMux("sub")
 	sub.Handle("x.$id", res.GetResource(handler), res.Call("m", call), res.Group("deep.${id}"))
 	s.Mount("", sub)
+	// registered on the service after the mount, with a pattern that passes through the mount point:
+	// no Group option, so every resource is its own worker group
+	s.Handle("sub.late.$id", res.GetResource(handler), res.Call("m", call))
 	sc.svc = s
 	return sc
 }
